@@ -200,6 +200,17 @@ pub fn case(rng: &mut Rng, w: &Weights, tag: &str) -> String {
                 }
                 p = Polytope::from_mats(mat, bias);
             }
+            // now and then one row of the precondition is scaled by 2^27 (coefficients and bias: the same half-space): the
+            // solver's vertex then misses `contains` by more than its absolute slack and the repair branch of the sweep runs
+            if !w.faults && !wide && rng.chance(1, 8) {
+                let i = rng.below(p.mat.nrows());
+                let k = (2.0f64).powi(27);
+                let mut mat = p.mat.clone();
+                let mut bias = p.bias.clone();
+                mat.row_mut(i).mapv_inplace(|v| v * k);
+                bias[i] *= k;
+                p = Polytope::from_mats(mat, bias);
+            }
             let ft = rand_aff(rng, m, n);
             let ff = if rng.chance(1, 2) { Some(rand_aff(rng, m, n)) } else { None };
             out.push_str("from_poly ");
@@ -299,8 +310,14 @@ pub fn case(rng: &mut Rng, w: &Weights, tag: &str) -> String {
                 }
             });
         } else if pick < w.apply_func {
-            let p = 1 + rng.below(3);
-            let a = rand_aff(rng, p, m);
+            let mut p = 1 + rng.below(3);
+            let mut a = rand_aff(rng, p, m);
+            // now and then a pure translation (identity matrix, non-zero offset): terminals of the form x + b are where
+            // "is this the identity?" shortcuts go wrong
+            if rng.chance(1, 6) {
+                p = m;
+                a = AffFunc::from_mats(Array2::eye(m), rand_int_vec(rng, m));
+            }
             opdesc.push_str("apply_func ");
             enc::aff(&mut opdesc, &a);
             m = p;
@@ -679,6 +696,10 @@ pub fn net_case(rng: &mut Rng, thorough: bool) -> String {
     // one network in eight has weights of large magnitude (small lattice values times 2^5 .. 2^12): the solver's vertices
     // then miss `contains` by more than its absolute tolerance and the repair heuristics are exercised
     let big: f64 = if rng.chance(1, 8) { (2.0f64).powi(5 + rng.below(8) as i32) } else { 1.0 };
+    // now and then the network starts with an input shift (identity matrix, non-zero offset)
+    if !head_only && rng.chance(1, 8) {
+        layers.push(Layer::Linear(AffFunc::from_mats(Array2::eye(dim), rand_int_vec(rng, dim))));
+    }
     // now and then a head in the middle of the network (a classifier feeding a second network): the pruned composition
     // of a head is then followed by eliminations and by another pruned composition on the same tree
     if !head_only && rng.chance(1, 6) {
